@@ -644,3 +644,157 @@ Proof.
   destruct ups as [u|]; cbn [ups_dict] in Hu; apply dmerge_pure; try exact Hu; try reflexivity;
     apply sanitize_dict_pure.
 Qed.
+
+(* ---------- the constructor establishes well-formedness ---------- *)
+
+Lemma norm_ring_zok : forall half h r, ring_zok r -> ring_zok (norm_ring half h r).
+Proof.
+  intros half h r H. unfold ring_zok in *. rewrite Forall_forall in *.
+  intros c Hc. apply H. eapply norm_ring_In. exact Hc.
+Qed.
+
+Lemma mk_ring_wf : forall half r, span_ok half r -> (2 <= length r)%nat ->
+  ring_wf half (norm_ring half false r).
+Proof.
+  intros half r H L. destruct (norm_ring_spec half false r H) as (C & _ & Ln & _ & O).
+  repeat split; [lia|exact C|exact O].
+Qed.
+
+Lemma mk_hole_wf : forall half r, span_ok half r -> (2 <= length r)%nat ->
+  area2 (close_ring r) <> 0 -> hole_wf half (mk_hole half r).
+Proof.
+  intros half r H L A. split; [apply mk_ring_wf; assumption|]. unfold mk_hole.
+  destruct (norm_ring_spec half false r H) as (C & Sp & _ & A0 & _).
+  apply strict_ccw_rev; [exact Sp|exact C|].
+  destruct (norm_ring_area half false r) as [E|E]; lia.
+Qed.
+
+(* every GeoPolygon built from in-span vertex lists with non-degenerate holes is well-formed *)
+Lemma constructed_polygon_wf : forall half o hs,
+  span_ok half o -> (2 <= length o)%nat -> ring_zok o ->
+  Forall (fun h => span_ok half h /\ (2 <= length h)%nat /\ ring_zok h /\ area2 (close_ring h) <> 0) hs ->
+  polygon_wf half true (mk_polygon half o (map (mk_hole half) hs)).
+Proof.
+  intros half o hs So Lo Zo Hh. unfold polygon_wf, mk_polygon. cbn [outline pholes].
+  repeat split; try (apply mk_ring_wf; assumption); [apply norm_ring_zok; exact Zo|].
+  rewrite Forall_forall in *. intros h Hin. apply in_map_iff in Hin as (r & <- & Hr).
+  destruct (Hh r Hr) as (S & L & Z & A). split; [apply mk_hole_wf; assumption|].
+  apply norm_ring_zok. exact Z.
+Qed.
+
+Lemma hole_wf_ring_wf : forall half h, hole_wf half h -> ring_wf half h.
+Proof. intros half h [H _]. exact H. Qed.
+
+(* members of a MultiGeoPolygon need no area condition on their holes *)
+Lemma constructed_member_wf : forall half o hs,
+  span_ok half o -> (2 <= length o)%nat -> ring_zok o ->
+  Forall (fun h => span_ok half h /\ (2 <= length h)%nat /\ ring_zok h) hs ->
+  polygon_wf half false (mk_polygon half o (map (mk_hole half) hs)).
+Proof.
+  intros half o hs So Lo Zo Hh. unfold polygon_wf, mk_polygon. cbn [outline pholes].
+  repeat split; try (apply mk_ring_wf; assumption); [apply norm_ring_zok; exact Zo|].
+  rewrite Forall_forall in *. intros h Hin. apply in_map_iff in Hin as (r & <- & Hr).
+  destruct (Hh r Hr) as (S & L & Z). split; [apply mk_ring_wf; assumption|].
+  apply norm_ring_zok. exact Z.
+Qed.
+
+(* ---------- closed rings ---------- *)
+
+Definition all_closed (rs : list ring) : Prop := Forall (fun r => closedb r = true) rs.
+
+Lemma rings_of_closed : forall shell hs, closedb shell = true -> all_closed hs ->
+  all_closed (rings_of shell hs).
+Proof.
+  intros shell hs C H. unfold rings_of, all_closed in *. constructor; [exact C|].
+  rewrite Forall_forall in *. intros r Hr. apply in_map_iff in Hr as (h & <- & Hh).
+  apply closedb_rev. apply H. exact Hh.
+Qed.
+
+Lemma mk_holes_closed : forall half hs, Forall (span_ok half) hs -> all_closed (map (mk_hole half) hs).
+Proof.
+  intros half hs H. unfold all_closed. rewrite Forall_forall in *. intros r Hr.
+  apply in_map_iff in Hr as (h & <- & Hh). destruct (norm_ring_spec half false h (H h Hh)) as (C & _). exact C.
+Qed.
+
+(* vertex-defined shapes: every exported ring is closed *)
+Lemma rings_closed_polygon : forall half orc k o hs, span_ok half o -> Forall (span_ok half) hs ->
+  all_closed (geom_rings orc k (GPoly (mk_polygon half o (map (mk_hole half) hs)))).
+Proof.
+  intros half orc k o hs So Sh. cbn. apply rings_of_closed; [|apply mk_holes_closed; exact Sh].
+  destruct (norm_ring_spec half false o So) as (C & _). exact C.
+Qed.
+
+Lemma rings_closed_box : forall orc k nw se hs, all_closed hs -> all_closed (geom_rings orc k (GBox nw se hs)).
+Proof.
+  intros orc k nw se hs H. cbn. apply rings_of_closed; [|exact H].
+  unfold box_ring, closedb. cbn. apply coord_eqb_refl.
+Qed.
+
+(* curved shapes: conditional on the sampled boundary being closed (circle, ellipse); by
+   construction for rings and wedges *)
+Lemma rings_closed_round : forall orc k id hs, closedb (o_outer orc id k) = true -> all_closed hs ->
+  all_closed (geom_rings orc k (GRound id hs)).
+Proof. intros orc k id hs C H. cbn. apply rings_of_closed; assumption. Qed.
+
+Lemma rings_closed_ringfull : forall orc k id hs, all_closed hs ->
+  all_closed (geom_rings orc k (GRingFull id hs)).
+Proof.
+  intros orc k id hs H. cbn. constructor; [apply closedb_app_first|].
+  constructor; [apply closedb_rev; apply closedb_app_first|].
+  unfold all_closed in *. rewrite Forall_forall in *. intros r Hr. apply in_map_iff in Hr as (h & <- & Hh).
+  apply closedb_rev. apply H. exact Hh.
+Qed.
+
+Lemma rings_closed_wedge : forall orc k id hs, o_outer orc id k <> [] -> all_closed hs ->
+  all_closed (geom_rings orc k (GWedge id hs)).
+Proof. intros orc k id hs N H. cbn. apply rings_of_closed; [apply closedb_wedge; exact N|exact H]. Qed.
+
+(* ---------- collections ---------- *)
+
+Definition shape_ok (half : Z) (s : shape) : Prop :=
+  (exists kd, kind_of (sgeom s) = Some kd) /\ geom_wf half (sgeom s) /\ dt_wf (sdt s) /\
+  dict_pure (sprops s) = true /\ no_reserved (sprops s).
+
+Definition reimported (ups : option dict) (s : shape) : shape :=
+  mkshape (sgeom s) (sdt s) (dmerge (sprops s) (ups_dict ups)).
+
+Lemma parse_feature_dispatch : forall half orc s ups k kw kd,
+  kind_of (sgeom s) = Some kd -> kw_ok kw ->
+  parse_feature half (to_geojson orc s ups k kw) = from_geojson half kd (to_geojson orc s ups k kw).
+Proof.
+  intros half orc [g dt p] ups k kw kd K (K1 & K2 & K3 & K4). cbn [sgeom] in K.
+  unfold parse_feature, to_geojson, dispatch. cbn [sgeom sdt sprops].
+  rewrite (jget_dmerge_fresh "type") by exact K4. rewrite (jget_dmerge_fresh "geometry") by exact K2.
+  cbn [jget String.eqb Ascii.eqb Bool.eqb].
+  change (parser_of "Feature") with (@None parser). cbn iota.
+  unfold geometry. cbn [jget String.eqb Ascii.eqb Bool.eqb].
+  rewrite (geom_type_kind _ _ K).
+  destruct kd; reflexivity.
+Qed.
+
+Lemma features_roundtrip : forall half orc ups k l i,
+  Forall (shape_ok half) l -> no_reserved (ups_dict ups) ->
+  exists lr, mapM (parse_feature half) (features_from orc i l ups k) = Ok lr /\
+             map fst lr = map (reimported ups) l.
+Proof.
+  intros half orc ups k. induction l as [|s l IH]; intros i H U.
+  - exists []. split; reflexivity.
+  - inversion H as [|? ? Hs Hl]; subst. destruct Hs as ((kd & K) & W & D & P & R).
+    destruct (IH (i + 1) Hl U) as (lr & E & M).
+    assert (Kw : kw_ok [("id", JInt i)]) by (repeat split).
+    cbn [features_from mapM].
+    rewrite (parse_feature_dispatch half orc s ups k _ kd K Kw).
+    rewrite (geojson_roundtrip half orc s ups k _ kd K W D P R U Kw).
+    rewrite E. eexists. split; [reflexivity|]. cbn [map fst]. rewrite M. reflexivity.
+Qed.
+
+Lemma collection_roundtrip : forall half orc l ups k,
+  Forall (shape_ok half) l -> no_reserved (ups_dict ups) ->
+  fc_from_geojson half (fc_to_geojson orc l ups k) =
+  Ok (map (reimported ups) l, fc_to_geojson orc l ups k).
+Proof.
+  intros half orc l ups k H U. unfold fc_from_geojson, fc_to_geojson.
+  cbn [jget String.eqb Ascii.eqb Bool.eqb].
+  destruct (features_roundtrip half orc ups k l 0 H U) as (lr & E & M).
+  rewrite E, M. reflexivity.
+Qed.
